@@ -60,6 +60,7 @@ def check(facts, rep, tier, cfg):
     check_r5_counters(facts, rep, bodies)
     check_r6_joint(facts, rep, crate, bodies)
     check_r7_initial_state(facts, rep, crate)
+    check_r8_read_not_gated_on_flush(facts, rep, bodies)
 
 
 def check_r2(facts, rep, bodies):
@@ -466,3 +467,51 @@ def check_r4(facts, rep, crate, bodies):
             else:
                 rep.ok(rid, "%s/credit-implies-push" % b.path, where, "every success path after the credit take builds a Push frame")
     rep.floor(rid, "credit/Finish ordering obligations in the bridge", m, 2)
+
+
+def _side(tr, op):
+    """Which end of the bridge a poll call is made on: the name of the bridge field its receiver derives from."""
+    for x in walk(tr.operand(op)):
+        if x.kind == "field" and x[2] in ("us", "other"):
+            return x[2]
+    return None
+
+
+def check_r8_read_not_gated_on_flush(facts, rep, bodies):
+    rid = "C13.R8"
+    rep.rule(rid, "no read of one end (poll_fill_buf / poll_read) waits for a flush or write of that same end to complete: an application that "
+                  "writes before it reads would otherwise stall its own direction (and, through back-pressure, both)")
+    k = 0
+    for b in bodies:
+        tr = Tracer(facts, b)
+        reads = [(bi, t) for bi, t in b.calls() if callee(t) and callee(t)["name"] in ("poll_fill_buf", "poll_read") and t["args"]]
+        flushes = {bi: _side(tr, t["args"][0]) for bi, t in b.calls()
+                   if callee(t) and callee(t)["name"] in ("poll_flush",) and t["args"]}
+        for bi, t in reads:
+            side = _side(tr, t["args"][0])
+            if side is None:
+                continue
+            k += 1
+            where = "%s (%s)" % (loc_str(t["loc"]), b.path)
+            key = "%s/read-%s-not-gated-on-flush" % (b.path, side)
+
+            def want(g, side=side):
+                if g.kind == "discr" and (g.adt or "").endswith("poll::Poll"):
+                    for fb, fs in flushes.items():
+                        if fs == side and derives_from_call(g.pred, fb):
+                            return {"Ready"}
+                if g.kind == "discr" and (g.adt or "").endswith("ControlFlow"):
+                    for fb, fs in flushes.items():
+                        if fs == side and derives_from_call(g.pred, fb):
+                            return {"Continue"}
+                return None
+            gates = edge_literals_dominating(facts, b, tr, bi, want)
+            # a loop back-edge (second read after a completed write of the *other* end) is not a gate: only dominance counts
+            if gates:
+                rep.bad(rid, key, where,
+                        "this read of `%s` is only reached after poll_flush(%s) returned Ready: while that end cannot take more output (its "
+                        "application is itself blocked writing) nothing is read from it any more, so the direction stalls and the bridge can "
+                        "deadlock with the application" % (side, side))
+            else:
+                rep.ok(rid, key, where, "read of `%s` not dominated by a completed flush of `%s`" % (side, side))
+    rep.floor(rid, "bridge read sites", k, 2)
